@@ -491,6 +491,34 @@ fn barrel_mesh_project(seed: u64, rng: &mut Rng) -> Project {
     }
 }
 
+/// `n` object types that all mention each other (and differ in one field): the number of simple
+/// paths through the named types grows factorially with `n`.  Used by the hash256 termination leg.
+pub fn dense_recursive_project(n: usize, style: usize) -> Project {
+    let mut src = String::from("import parse from \"./gen/parser\";\n");
+    for i in 0..n {
+        let fields: Vec<String> = (0..n)
+            .map(|j| match style {
+                0 => format!("g{}?: N{}", j, j),
+                1 => format!("g{}: N{}[]", j, j),
+                _ => format!("g{}: N{} | null", j, j),
+            })
+            .collect();
+        src.push_str(&format!("export type N{} = {{ own{}: string; {} }};\n", i, i, fields.join("; ")));
+    }
+    src.push_str("parse.buildParsers<{ N0: N0 }>();\n");
+    let mut files: BTreeMap<String, String> = BTreeMap::new();
+    files.insert("/p/entry.ts".into(), src);
+    Project {
+        id: format!("stress_dense_{}_{}", n, style),
+        origin: "verif/sim/src/gen.rs dense_recursive_project".into(),
+        origin_kind: "synthetic".into(),
+        entry: "/p/entry.ts".into(),
+        settings: Settings { string_formats: vec![], number_formats: vec![] },
+        module: "esm".into(),
+        files,
+    }
+}
+
 pub fn synthetic_project(seed: u64) -> Project {
     let mut rng = Rng::new(seed ^ 0x5EED_0F_7E57);
     if rng.chance(1, 40) {
